@@ -100,6 +100,19 @@ func (env *c06E2E) record(output string, pipeKeys []string, chunk base.LogChunk)
 	}
 }
 
+// c06DecodeForward decodes a fluentd "Forward" message: tag and the records
+func c06DecodeForward(data []byte) (string, []map[string]interface{}, error) {
+	var message forwardprotocol.Message
+	if err := msgpack.NewDecoder(bytes.NewReader(data)).Decode(&message); err != nil {
+		return "", nil, err
+	}
+	recs := make([]map[string]interface{}, len(message.Entries))
+	for i, e := range message.Entries {
+		recs[i] = e.Record
+	}
+	return message.Tag, recs, nil
+}
+
 func c06YAMLQuote(s string) string { return "'" + strings.ReplaceAll(s, "'", "''") + "'" }
 
 func c06WriteConfig(path, qroot, tmpl string, names []string, outputs []string) error {
